@@ -390,7 +390,7 @@ def run_trace(name, recs):
 def run(tier, seed):
     rng = random.Random(seed)
     quick = tier == "quick"
-    NS = 200 if quick else 6000
+    NS = 200 if quick else 4000
     cx = Ctx()
     # ---- (M)+(R): generator, laws decided on the reference, expected values
     wd = lib.workdir(PID, "gen")
@@ -413,28 +413,42 @@ def run(tier, seed):
         if len(c["sn"]) >= 1 and len(c["tn"]) >= 1 and len(cx.agg.d) == before:
             nontriv.add((c["n"], json.dumps(c["sn"]), json.dumps(c["tn"])))
     # ---- (T): seeded larger sentences through the real classes, validated by TLC
-    npairs = 120 if quick else 2500
+    npairs = 120 if quick else 2000
     recs, meta = trace_part(cx, rng, npairs, 4 if quick else 5)
-    # negative controls for the trace spec: corrupt one recorded output (sign of a coefficient; dropped term; wrong letter)
-    ctrl = []
-    for base in [r for r in recs if r["op"] in ("mul", "comm", "add") and len(r["out"]) >= 2 and r["exact"]][:3]:
-        bad1 = json.loads(json.dumps(base))
-        bad1["out"][0]["c"][0] += 1
-        bad2 = json.loads(json.dumps(base))
-        bad2["out"] = bad2["out"][1:]
-        bad3 = json.loads(json.dumps(base))
-        bad3["out"][-1]["w"][0] = (bad3["out"][-1]["w"][0] + 1) % 4
-        ctrl += [bad1, bad2, bad3]
-    if len(ctrl) < 3:
-        raise lib.MachineryError("no recorded call suitable for the negative control")
-    for x in ctrl:
-        x["emit"] = False
-    verd, mats, tr = run_trace("trace", recs + ctrl)
+    # controls for the trace spec (hand-written, independent of the implementation): accepted / rejected as expected
+    def T(w, c):
+        return {"w": w, "c": c}
+    X1, Y1, Z1, I1 = [1], [2], [3], [0]
+    one, i_, two = [1, 0, 0], [0, 1, 0], [2, 0, 0]
+
+    def ctl(op, a, b, out, cf=None, exact=True, n=1):
+        return {"op": op, "n": n, "a": a, "b": b, "cf": cf or one, "out": out, "exact": exact, "emit": False, "ord": list(range(1, n + 1))}
+    ctrl = [("ok", ctl("mul", [T(X1, one)], [T(Y1, one)], [T(Z1, i_)])),
+            ("differs-from-algebra", ctl("mul", [T(X1, one)], [T(Y1, one)], [T(Z1, [0, -1, 0])])),
+            ("differs-from-algebra", ctl("mul", [T(X1, one)], [T(Y1, one)], [T(Y1, i_)])),
+            ("ok", ctl("comm", [T(X1, one)], [T(Y1, one)], [T(Z1, [0, 2, 0])])),
+            ("differs-from-algebra", ctl("comm", [T(X1, one)], [T(Y1, one)], [T(Z1, i_)])),
+            ("ok", ctl("comm", [T(X1, one)], [T(X1, two)], [])),
+            ("ok", ctl("add", [T(X1, one)], [T(X1, one)], [T(X1, two)])),
+            ("differs-from-algebra", ctl("add", [T(X1, one)], [T(X1, one)], [T(X1, one)])),
+            ("ok", ctl("sub", [T(X1, one)], [T(X1, one)], [T(X1, [0, 0, 0])])),
+            ("differs-from-algebra", ctl("sub", [T(X1, one), T(Z1, one)], [T(X1, one)], [])),
+            ("ok", ctl("scale", [T(X1, [1, 0, 1])], [], [T(X1, [0, 1, 1])], cf=i_)),
+            ("differs-from-algebra", ctl("scale", [T(X1, [1, 0, 1])], [], [T(X1, [0, 1, 0])], cf=i_)),
+            ("ok", ctl("trace", [T(I1, [3, 0, 2]), T(X1, one)], [], [T(I1, [3, 0, 2])])),
+            ("differs-from-algebra", ctl("trace", [T(I1, [3, 0, 2]), T(X1, one)], [], [T(I1, one)])),
+            ("ok", ctl("same", [T([1, 2], one), T([0, 3], i_)], [], [T([0, 3], i_), T([1, 2], one)], n=2)),
+            ("differs-from-algebra", ctl("same", [T([1, 2], one), T([0, 3], i_)], [], [T([1, 2], one)], n=2)),
+            ("differs-from-algebra", ctl("same", [T([1, 2], one)], [], [T([2, 1], one)], n=2)),
+            ("malformed-output", ctl("same", [T([1, 2], one)], [], [T([9, 9], one)], n=2)),
+            ("inexact-coefficient", ctl("same", [T(X1, one)], [], [T(X1, one)], exact=False))]
+    verd, mats, tr = run_trace("trace", recs + [c for _, c in ctrl])
     neg = 0
-    for i in range(len(recs), len(recs) + len(ctrl)):
-        if verd[i] == "ok":
-            raise lib.MachineryError("negative control accepted by Trace_PauliAlg: " + json.dumps(ctrl[i - len(recs)])[:400])
-        neg += 1
+    for k, (want, c) in enumerate(ctrl):
+        got = verd[len(recs) + k]
+        if got != want:
+            raise lib.MachineryError(f"trace control answered {got!r}, expected {want!r}: {json.dumps(c)[:400]}")
+        neg += want != "ok"
     t_ok = 0
     for i, r in enumerate(recs):
         if verd[i] != "ok":
@@ -471,20 +485,21 @@ def run(tier, seed):
             cx.count("sentences_with_several_sparsity_patterns")
         if ncls > 3:
             cx.count("sparse_builds_flushing_a_full_buffer_more_than_once")
-    # ---- negative controls for the comparators (REPLAY direction)
+    # ---- controls for the comparators (REPLAY direction), independent of the arithmetic under test
     tmp = Ctx()
-    c0 = next(c for c in kinds["sent"] if len(c["mul"]) >= 2)
-    L0 = labels_for(random.Random(1), c0["n"])
-    s0, t0 = build_ps(c0["s"], L0[:c0["n"]]), build_ps(c0["t"], L0[:c0["n"]])
-    badmul = json.loads(json.dumps(c0["mul"]))
-    badmul[0]["c"][0] += 1
-    tmp.sent("neg", lambda: s0 @ t0, badmul, L0[:c0["n"]], c0)
-    badmat = ring_matrix_to_numpy(c0["mat"], M).copy()
-    badmat[0, 0] += 0.5
-    tmp.mat("negm", lambda: s0.to_mat(wire_order=wire_order(c0["ord"], L0)), badmat, c0, L0)
-    if len(tmp.agg.d) != 2:
+    fixed = PauliSentence({PauliWord({0: "X", 1: "Y"}): 0.5j, PauliWord({}): 2})
+    good = [{"w": [1, 2], "c": [0, 1, 1]}, {"w": [0, 0], "c": [2, 0, 0]}]
+    c0 = {"kind": "sent", "s": good, "t": [], "cf": [1, 0, 0], "ord": [1, 2]}
+    if not tmp.sent("pos", lambda: fixed, good, [0, 1], c0) or not tmp.mat("posm", lambda: np.eye(2), np.eye(2, dtype=complex), c0, [0]):
+        raise lib.MachineryError("positive control rejected by the replay comparator")
+    tmp.sent("neg1", lambda: fixed, [{"w": [1, 2], "c": [0, -1, 1]}, {"w": [0, 0], "c": [2, 0, 0]}], [0, 1], c0)
+    tmp.sent("neg2", lambda: fixed, good[:1], [0, 1], c0)
+    tmp.sent("neg3", lambda: fixed, [{"w": [2, 1], "c": [0, 1, 1]}, {"w": [0, 0], "c": [2, 0, 0]}], [0, 1], c0)
+    tmp.mat("negm", lambda: np.eye(2), np.array([[1, 1e-6], [0, 1]], dtype=complex), c0, [0])
+    tmp.value("negv", lambda: 0.5, 0.25, c0, [0])
+    if len(tmp.agg.d) != 5:
         raise lib.MachineryError("negative control accepted by the replay comparator")
-    neg += 2
+    neg += 5
     for need in ("pairs_anticommuting", "products_with_colliding_or_cancelling_words", "sentences_with_words_sharing_a_sparsity_pattern",
                  "sentences_with_several_sparsity_patterns", "operator_form_cases", "hermitian_decompositions"):
         if not cx.stats.get(need):
